@@ -5,10 +5,19 @@
 -/
 import CC.Driver.D01
 import CC.Driver.DSpec
+import CC.Driver.DTrans
+import CC.Driver.DFmt
+import CC.Driver.DFourier
+import CC.Driver.DCircuit
+import CC.Driver.DLoad
+import CC.Driver.DDraw
+import CC.Driver.DState
+import CC.Driver.DPort
 open Lean CC
 
 def allHandlers : List (String × Handler) :=
-  handlers01 ++ handlersSpec
+  handlers01 ++ handlersSpec ++ handlersTrans ++ handlersFmt ++ handlersFourier ++ handlersCircuit
+  ++ handlersLoad ++ handlersDraw ++ handlersState ++ handlersPort
 
 def handleLine (line : String) : String :=
   match Json.parse line with
